@@ -271,7 +271,14 @@ impl C16 {
                     _ => src += &format!("c.stdin_text(\"{stdin_text}\")\n"),
                 }
                 src += &format!("c.timeout_ms({timeout})\n");
-                src += "make r get c.run()\nshout(r.success())\nshout(r.exit_code())\nshout(r.stdout())\nshout(r.stderr())\n";
+                // where the result lives between run() and its use: top level, returned from a function,
+                // or assigned inside a loop body and read after the loop (frame resets in between)
+                match c["script_shape"].as_u64().unwrap_or(0) {
+                    1 => src += "do go(k) start\n  make t get k.run()\n  return t\nend\nmake r get go(c)\nmake pad get \"x\" add to_string(1)\n",
+                    2 => src += "make holder get [0]\nmake i get 0\njasi (i small pass 1) start\n  i get i add 1\n  holder[0] get c.run()\n  make pad get \"y\" add to_string(i)\nend\nmake pad2 get \"z\" add to_string(2)\nmake r get holder[0]\n",
+                    _ => src += "make r get c.run()\n",
+                }
+                src += "shout(r.success())\nshout(r.exit_code())\nshout(r.stdout())\nshout(r.stderr())\n";
                 let policy = HostPolicy { allow_process: true, process: caps };
                 seen_from_script(&pipeline::run_library(&src, true, Some(policy)))
             };
@@ -360,14 +367,15 @@ pub fn oracle(case: &Value, seen: &Seen, w: &WorldObs) -> Result<&'static str, (
         // jitter): the wait loop samples at multiples of the poll interval and time cannot pass a
         // sample point before the loop has run there, so a child that outlives the first sample at or
         // after the deadline cannot yield a result.
-        if case["pure_des"].as_bool().unwrap_or(false)
-            && let Some(start) = w.runner_start
-        {
+        if case["pure_des"].as_bool().unwrap_or(false) {
+            // the clock of the timeout starts when the child is spawned: in discrete-event time nothing
+            // between the spawn and the first deadline sample may let time pass
+            let start = p.spawn_at;
             let poll = case["poll"].as_u64().unwrap().max(1);
             if p.exit_at > start + timeout + poll {
                 return v(
                     "deadline-ignored",
-                    format!("child ran until t={} ms, timeout {timeout} ms from t={start}, poll {poll} ms, yet run() returned a result", p.exit_at),
+                    format!("child ran until t={} ms, timeout {timeout} ms from its spawn at t={start}, poll {poll} ms, yet run() returned a result", p.exit_at),
                 );
             }
         }
@@ -538,6 +546,7 @@ fn gen_scenario(r: &mut Rng, tier: Tier) -> Value {
         "pipe_cap": pipe_cap, "epipe_die": r.chance(50), "stdin_len": stdin_len, "script": script,
         "faults": faults, "jitter_seed": r.next() >> 1,
         "mode": if r.below(8) == 0 { "direct" } else { "script" },
+        "script_shape": r.pick(&[0u64, 0, 1, 2]),
     })
 }
 
@@ -762,6 +771,9 @@ impl Engine for C16 {
         }
         if case["mode"] != "direct" {
             v.push(set("mode", json!("direct")));
+        }
+        if case["script_shape"].as_u64().unwrap_or(0) != 0 {
+            v.push(set("script_shape", json!(0)));
         }
         let cap = case["cap"].as_u64().unwrap();
         for nc in [0, cap / 2, cap.saturating_sub(1)] {
